@@ -1,6 +1,8 @@
 import UtilModel.Core.LTSHash
 import UtilModel.Once.Sim
 import UtilModel.Memo.Props
+import UtilModel.Once.Transfer
+import UtilModel.Memo.Transfer
 open UtilModel
 #print axioms UtilModel.acceptsH_sound
 #print axioms UtilModel.accepted_satisfies
@@ -24,3 +26,5 @@ open UtilModel
 #print axioms Memo.memo_all_same
 #print axioms Memo.waiting_enabled
 #print axioms Memo.C16_obs_memo
+#print axioms UtilModel.C16_accepted_once
+#print axioms UtilModel.C16_accepted_memo
